@@ -3,5 +3,5 @@
 cd "$(dirname "$0")/.." || exit 2
 export VERIF_REPO="${VP_RUN_REPO:-/repo}"
 bin/verif setup > /dev/null 2>&1 || { echo "setup failed"; exit 2; }
-python3 bin/seedrun.py "$@" 2>&1 | grep -E "CAUGHT|missed|no claimed"
+python3 -u bin/seedrun.py "$@" 2>&1 | grep --line-buffered -E "CAUGHT|missed|no claimed"
 cp work/seedrun_last.json "${MATRIX_OUT:-work/matrix_last.json}" 2>/dev/null
